@@ -986,7 +986,20 @@ def dump(dbs, f, **options):
 ###################################
 
 
-frames_cache = {}  # type: typing.Dict[_Element, canmatrix.Frame]
+frames_cache = {}  # type: typing.Dict[typing.Tuple[_Element, typing.Optional[_Element]], canmatrix.Frame]
+current_cluster = None  # type: typing.Optional[_Element]  # the cluster whose frame triggerings are being read
+
+
+def in_current_cluster(element, ea):
+    # type: (_Element, Earxml) -> bool
+    """An I-SIGNAL may be triggered in several clusters; its receivers in one cluster are those of that cluster's triggering."""
+    if current_cluster is None:
+        return True
+    while element is not None and element != ea.root:
+        if element == current_cluster:
+            return True
+        element = element.getparent()
+    return False
 
 
 def get_signalgrp_and_signals(sys_signal, sys_signal_array, frame, group_id, ea):
@@ -1150,7 +1163,8 @@ def get_signals(signal_array, frame, ea, multiplex_id, float_factory, bit_offset
 
         receiver = []  # type: typing.List[str]
 
-        for triggering in ea.selector(isignal, "<<I-SIGNAL-TRIGGERING"):
+        triggerings = [t for t in ea.selector(isignal, "<<I-SIGNAL-TRIGGERING") if in_current_cluster(t, ea)]
+        for triggering in triggerings:
             try:
                 reciving_ecu_instances = ea.selector(triggering, ">>I-SIGNAL-PORT-REF//COMMUNICATION-DIRECTION:IN/../../..")
                 receiver = [ea.get_short_name(a) for a in reciving_ecu_instances]
@@ -1374,7 +1388,9 @@ def get_signals(signal_array, frame, ea, multiplex_id, float_factory, bit_offset
                 # startbit of motorola coded signals are MSB in arxml
                 new_signal.set_startbit(int(start_bit.text, 0) + bit_offset, bitNumbering=1)
 
-            communication_direction = ea.selector(isignal, "<I-SIGNAL-TRIGGERING>I-SIGNAL-PORT-REF/COMMUNICATION-DIRECTION")
+            communication_direction = []
+            if len(triggerings) > 0:
+                communication_direction = ea.selector(triggerings[0], ">I-SIGNAL-PORT-REF/COMMUNICATION-DIRECTION")
             if len(communication_direction) > 0:
                 ecu = ea.get_ecu_instance(communication_direction[0])
 
@@ -1614,8 +1630,8 @@ def get_frame(frame_triggering, ea, multiplex_translation, float_factory, header
 
     if frame_elem is not None:
         logger.debug("Frame: %s", ea.get_element_name(frame_elem))
-        if frame_elem in frames_cache:
-            return copy.deepcopy(frames_cache[frame_elem])
+        if (frame_elem, current_cluster) in frames_cache:
+            return copy.deepcopy(frames_cache[(frame_elem, current_cluster)])
         dlc_elem = ea.get_child(frame_elem, "FRAME-LENGTH")
         # pdu_mapping = ea.get_child(frame_elem, "PDU-TO-FRAME-MAPPING")
         # pdu = ea.follow_ref(pdu_mapping, "PDU-REF")  # SIGNAL-I-PDU
@@ -1772,7 +1788,7 @@ def get_frame(frame_triggering, ea, multiplex_translation, float_factory, header
         new_frame.cycle_time = min(cycle_times)
     new_frame.fit_dlc()
     if frame_elem is not None:
-        frames_cache[frame_elem] = new_frame
+        frames_cache[(frame_elem, current_cluster)] = new_frame
 
     return copy.deepcopy(new_frame)
 
@@ -2068,7 +2084,9 @@ def decode_can_helper(ea, float_factory, ignore_cluster_info):
     headers_are_littleendian = containters_are_little_endian(ea)
     nodes = {}  # type: typing.Dict[_Element, canmatrix.Ecu]
 
+    global current_cluster
     for cc in ccs:  # type: _Element
+        current_cluster = None if ignore_cluster_info is True else cc
         db = canmatrix.CanMatrix()
         # Defines not jet imported...
         db.add_ecu_defines("NWM-Stationsadresse", 'HEX 0 63')
@@ -2153,6 +2171,7 @@ def decode_can_helper(ea, float_factory, ignore_cluster_info):
             # frame.update_receiver()
         found_matrixes[bus_name] = db
 
+    current_cluster = None
     return found_matrixes
 
 
